@@ -28,9 +28,10 @@ def eventOf (j : Json) : Option Event := match j with
 
 def hashMod : Nat := 2305843009213693951   -- 2^61 - 1
 
+/-- Python side: `hs = int.from_bytes(S, "big") % M; h = (h*1000003 + hs*131 + 7 + bored) % M` -/
 def hashState (h : Nat) (s : State) : Nat :=
-  let h := s.S.foldl (fun h c => (h * 131 + c.toNat) % hashMod) h
-  (h * 131 + 7 + s.bored) % hashMod
+  let hs := s.S.foldl (fun x c => (x * 256 + c.toNat) % hashMod) 0
+  (h * 1000003 + hs * 131 + 7 + s.bored) % hashMod
 
 def handle (j : Json) : Json :=
   let t := tripleOf j
@@ -52,7 +53,9 @@ def handle (j : Json) : Json :=
     let s0 : State := ⟨S0, 0, 0⟩
     let sts := runList t p nf s0 es
     let n := sts.length
-    if !(es.take n).all (validEvent t) then reject "event" else
+    let fl := freeLocs t
+    -- `validEvent t e` for every executed event, with the `freeloc` table computed once
+    if !(es.take n).all (fun e => fl.contains e.idx && (choices (t.stAt e.idx)).contains e.base) then reject "event" else
     let fin := run t p nf s0 es
     let out := constrain t fin.S
     let common : List (String × Json) := [
